@@ -200,6 +200,16 @@ FLD = {'slices': 's', 'groups': 'g', 'layers': 'l'}
 COL = {'s': 'slice_id', 'g': 'group_id', 'l': 'layer_id'}
 
 
+FLOATCOLS = ['perc', 'height_base', 'height_mean', 'height_std', 'height_min', 'height_max', 'thickness', 'fluffiness']
+
+
+def bits_digest(vals):
+    """ 30-bit digest of the exact bit patterns of floats (bit-for-bit comparisons in TLC) """
+    import struct
+    import zlib
+    return zlib.crc32(b''.join(struct.pack('<d', float(v)) for v in vals)) & 0x3fffffff
+
+
 def project_table(tb, which):
     rows = []
     if tb is None:
@@ -228,6 +238,7 @@ def project_table(tb, which):
             'f100': min(iround(flf, 100), 2000000000) if fk == 0 else 0,   # capped: TLC integers are 32 bit
             'code': chars(str(r['code'])),
             'sig': bool(r['significant']),
+            'hx': bits_digest([r[c] for c in FLOATCOLS]),
         }
         if which == 'slices':
             iso = r['isolated']
@@ -298,7 +309,34 @@ def build_frame(desc):
     })
     df['ceilo'] = df['ceilo'].astype(pd.StringDtype())
     df['type'] = df['type'].astype(int)
-    return relabel(df, desc.get('index'), [str(r[0]) for r in rows])
+    df = relabel(df, desc.get('index'), [str(r[0]) for r in rows])
+    return layout(df, desc.get('layout'))
+
+
+def layout(df, lay):
+    """ layout / dtype variants carrying the same values: column order, superfluous columns, coercible dtypes """
+    if not lay:
+        return df
+    if lay.get('dtypes'):
+        for col, dt in lay['dtypes'].items():
+            if dt == 'object':
+                df[col] = df[col].astype(object)
+            elif dt == 'str':
+                df[col] = df[col].astype(str)
+            elif dt == 'int_if_exact':
+                if df[col].notna().all() and (df[col] == df[col].round()).all():
+                    df[col] = df[col].astype(int)
+            else:
+                df[col] = df[col].astype(dt)
+    if lay.get('extra'):
+        df['extra_col'] = range(len(df))
+        df['comment'] = 'x'
+    if lay.get('colperm'):
+        cols = list(df.columns)
+        order = [cols[i % len(cols)] for i in lay['colperm'] if i < len(cols)]
+        order += [c for c in cols if c not in order]
+        df = df[order]
+    return df
 
 
 def relabel(df, mode, ceilos):
@@ -424,7 +462,10 @@ class Recorder:
         return self.trace
 
     def frame_norm(self):
-        f = self.frame[['ceilo', 'dt', 'height', 'type']]
+        f = self.frame[['ceilo', 'dt', 'height', 'type']].copy()
+        f['dt'] = f['dt'].astype(float)
+        f['height'] = f['height'].astype(float)
+        f['type'] = f['type'].astype(float).astype(int)
         return f
 
 
@@ -478,3 +519,15 @@ def run_scenario(desc):
         return {'inexact': str(e), 'name': desc.get('name', ''), 'family': desc.get('family', '')}
     finally:
         ampycloud.reset_prms()
+
+
+def run_pair(pd_):
+    """ two related scenarios through the real code -> one pair record for spec/TracePair.tla """
+    a = run_scenario(pd_['a'])
+    b = run_scenario(pd_['b'])
+    if 'inexact' in a or 'inexact' in b:
+        return {'inexact': a.get('inexact') or b.get('inexact'), 'name': pd_.get('name', '')}
+    for t in (a, b):
+        t.pop('canon', None)
+        t.pop('tb', None)
+    return {'kind': pd_['kind'], 'name': pd_.get('name', ''), 'rho': pd_.get('rho', []), 'a': a, 'b': b}
